@@ -509,6 +509,30 @@ pub fn run(out: &mut Out, tier: &str, rng: &mut Rng) {
             }
         }
     }
+    // extreme 16-bit words (length prefixes live there) at every offset of payloads of several sizes, for every type
+    for kind in KINDS {
+        for size in [2usize, 3, 4, 6, 9, 24, 40] {
+            for pos in 0..size.saturating_sub(1) {
+                for w in [0xFFFFu16, 0xFFFE, 0xFF00, 0x00FF, 0x8000, 0x7FFF, 0x0100, 0xFFFD] {
+                    for fill in [0u8, 0xF8] {
+                        let mut p = vec![fill; size];
+                        p[pos..pos + 2].copy_from_slice(&w.to_be_bytes());
+                        dec_case(out, kind, size, &p, "extreme-word");
+                    }
+                }
+            }
+        }
+    }
+    // … and in place of every 2-byte window of each valid encoding
+    for (kind, bytes) in valid.clone() {
+        for pos in 0..bytes.len().saturating_sub(1).min(48) {
+            for w in [0xFFFFu16, 0xFFFE, 0x8000, 0x7FFF, 0xFF00] {
+                let mut b = bytes.clone();
+                b[pos..pos + 2].copy_from_slice(&w.to_be_bytes());
+                dec_case(out, kind, b.len(), &b, "extreme-word");
+            }
+        }
+    }
     for kind in KINDS {
         let mut sizes: Vec<usize> = (0..=64).collect();
         sizes.extend([1023, 1024, 1025, 2000]);
